@@ -75,7 +75,8 @@ func c34Walk(block []rune, depth int, o *c34Obs) (ok bool) {
 		return false
 	}
 	for i, c := range r.cmds {
-		name := string(c)
+		// parsed without executing, a `name:` command keeps its colon in the tree; the command that runs is `name`
+		name := strings.TrimSuffix(string(c), ":")
 		o.Cmds = append(o.Cmds, name)
 		if r.pipes[i] > 0 || name == "<pipe>" {
 			o.Redirect = true
